@@ -29,6 +29,86 @@ Proof.
   step_leaves H.
   all: simp_proj; clean_eqs.
   all: try solve [split; [left; reflexivity|reflexivity]].
-  Show.
-Admitted.
+Qed.
+
+Lemma scan_sbs_gen es : forall pre s0 s saved,
+  run step init pre = Some s0 -> run step s0 es = Some s ->
+  (forall q, In (Outgoing, q) (g_saved (g s0)) -> In q saved) ->
+  scan_sbs saved es = true.
+Proof.
+  induction es as [|e es IH]; intros pre s0 s saved Hpre Hrun Hinc; [reflexivity|].
+  cbn [run] in Hrun. destruct (step s0 e) as [s1|] eqn:Hs; [|discriminate Hrun].
+  assert (Hpre' : run step init (pre ++ [e]) = Some s1).
+  { rewrite run_app, Hpre. cbn [run]. rewrite Hs. reflexivity. }
+  assert (Hstd : forall saved', (forall q, In (Outgoing, q) (g_saved (g s1)) -> In q saved') -> scan_sbs saved' es = true).
+  { intros saved' Hinc'. eapply IH; eassumption. }
+  assert (Hkeep : (forall q, e <> ESave Outgoing q Ok) -> forall q, In (Outgoing, q) (g_saved (g s1)) -> In q saved).
+  { intros Hne q Hq. destruct (saved_step _ _ _ Hs q Hq) as [X|X]; [apply Hinc, X|exfalso; eapply Hne, X]. }
+  destruct e; cbn [scan_sbs]; try (apply Hstd, Hkeep; intros q X; discriminate X).
+  - (* ETx *)
+    destruct p; try (apply Hstd, Hkeep; intros q X; discriminate X).
+    apply andb_true_iff. split; [|apply Hstd, Hkeep; intros q X; discriminate X].
+    destruct (m_qos m =? 0) eqn:Eq; [reflexivity|]. cbn [orb].
+    destruct (tx_step _ _ _ _ _ Hs) as [Hin Hsv].
+    pose proof (store_before_send _ _ Hpre' _ _ _ Hin dup m id eq_refl) as Hsaved.
+    assert (Hq : m_qos m <> 0) by (apply N.eqb_neq; exact Eq).
+    specialize (Hsaved Hq). rewrite Hsv in Hsaved. apply Hinc in Hsaved.
+    apply existsb_exists. exists (Publish false m id). split; [exact Hsaved|apply packet_eqb_refl].
+  - (* ESave *)
+    destruct d; [apply Hstd, Hkeep; intros q X; discriminate X|].
+    destruct r; [|apply Hstd, Hkeep; intros q X; discriminate X].
+    apply Hstd. intros q Hq. destruct (saved_step _ _ _ Hs q Hq) as [X|X]; [right; apply Hinc, X|].
+    injection X as ->. left. reflexivity.
+Qed.
+
+Theorem scan_sbs_accepted es s : run step init es = Some s -> scan_sbs [] es = true.
+Proof.
+  intros H. eapply (scan_sbs_gen es [] init s []); [reflexivity|exact H|].
+  intros q Hq. cbn in Hq. contradiction.
+Qed.
+
+
+
+(* ---- scan_pubrec: the scanner's expectation is a function of the processor's control point *)
+
+Definition pexp_of (p : ppc) : pexp :=
+  match p with PRecSave id => XSave id | PRecSend id => XTx id | PNone | PRecv true => XInit | _ => XNone end.
+
+Lemma pubrec_sim s e s' : InvCtl s -> InvOwed s -> step s e = Some s' ->
+  pubrec_step (pexp_of (k_ppc (k s))) e = Some (pexp_of (k_ppc (k s'))).
+Proof.
+  intros (_ & _ & C3 & _) (_ & O2) H.
+  destruct e.
+  all: step_leaves H.
+  all: simp_proj; clean_eqs.
+  all: repeat match goal with
+       | E : (?a =? ?b) = true |- _ => apply N.eqb_eq in E; subst
+       | E : negb ?a = false |- _ => destruct a; [clear E|discriminate E]
+       end.
+  all: cbn [pubrec_step proc_obs pexp_of].
+  all: rewrite ?N.eqb_refl.
+  all: try reflexivity.
+  all: try solve [specialize (O2 _ eq_refl); rewrite (C3 eq_refl);
+                  destruct after; cbn [after_pc] in O2; try contradiction;
+                  try (match goal with b : bool |- _ => destruct b end; try contradiction); reflexivity].
+  all: try solve [destruct first; reflexivity].
+Qed.
+
+Lemma scan_pubrec_gen es : forall pre s0 s,
+  run step init pre = Some s0 -> run step s0 es = Some s ->
+  scan_pubrec (pexp_of (k_ppc (k s0))) es = Some (pexp_of (k_ppc (k s))).
+Proof.
+  induction es as [|e es IH]; intros pre s0 s Hpre Hrun.
+  - cbn in Hrun. injection Hrun as <-. reflexivity.
+  - cbn [run] in Hrun. destruct (step s0 e) as [s1|] eqn:Hs; [|discriminate Hrun].
+    assert (Hpre' : run step init (pre ++ [e]) = Some s1).
+    { rewrite run_app, Hpre. cbn [run]. rewrite Hs. reflexivity. }
+    destruct (InvG_reach _ _ Hpre) as (((((_ & HC & HO & _) & _) & _) & _) & _).
+    cbn [scan_pubrec]. rewrite (pubrec_sim _ _ _ HC HO Hs). eapply IH; eassumption.
+Qed.
+
+(* every accepted trace passes the PUBREC scanner; its final expectation is the one of the final state *)
+Theorem scan_pubrec_accepted es s : run step init es = Some s ->
+  scan_pubrec XInit es = Some (pexp_of (k_ppc (k s))).
+Proof. intros H. exact (scan_pubrec_gen es [] init s eq_refl H). Qed.
 
